@@ -1,4 +1,6 @@
 import Pearl.Proofs.ToolsLemmas
+import Pearl.Proofs.ToolsWriterShapes
+import Pearl.Proofs.ToolsWriterBuggy
 import Pearl.Props.C05
 /-
 C16 "Offline tools validate exactly well-formed files and recover without loss": `validate_blob`,
@@ -322,9 +324,10 @@ theorem meta_not_protected :
 /-- (4) Outside the scope of the property (the input is not something the storage writes): the tools
     deserialise the metadata and serialise it again, but keep the header's `meta_size`. A record whose
     meta region carries a trailing byte (bincode `deserialize` allows trailing bytes) is valid for the
-    storage, the start-up scan and `validate_blob`; `recovery_blob` (run with `validate_every = 0`, the
-    only mode the model covers) writes an output whose meta is one byte shorter than the header claims,
-    and that output is no longer a valid blob. -/
+    storage, the start-up scan and `validate_blob`; `recovery_blob` run with `validate_every = 0` writes an
+    output whose meta is one byte shorter than the header claims,
+    and that output is no longer a valid blob.  (With `validate_every ≠ 0` the read-back fails instead:
+    `validate_every_relevant_for_noncanonical_meta`.) -/
 def oddHdr : RecHeader := (RecHeader.new [0, 0, 7] 5 9 3 (crc32c [1, 2, 3])).final 20
 def oddFile : List UInt8 := serBlobHeader ++ (serHeader oddHdr ++ ((le64 0 ++ [0xFF]) ++ [1, 2, 3]))
 
@@ -334,6 +337,290 @@ theorem recovery_output_invalid_for_noncanonical_meta :
     ∃ out, recoveryBlob oddFile true = .ok out ∧ out.length + 1 = oddFile.length ∧
       validateBlob out = .error .other := by
   refine ⟨by decide, by decide, by decide, ⟨_, rfl, by decide, by decide⟩⟩
+
+/-! ## the writer's read-back validation (`validate_every ≠ 0`)
+
+Model: Pearl/Model/ToolsWriter.lean (`Writer`: output file, cursor, `written`, `written_cached`, `cache`;
+`write_record`, `validate_written_records`, `clear_cache` in the order of `process_blob_with`).
+Lemmas: Pearl/Proofs/ToolsWriter.lean (invariant, general theorem), ToolsWriterShapes.lean (the C16
+inputs), ToolsWriterBuggy.lean (the two seeded variants).  `recoveryBlobV ve`, `migrateBlobV ve`,
+`processBlobWithV ve` are the tools run with `validate_every = ve`; `liftW` reads a result of the
+`validate_every = 0` model (`recoveryBlob`, ...) as a result of this one. -/
+
+/-- (1), general form.  For every input (any bytes), every pair of preprocessors and every
+    `validate_every`, the run with read-back validation returns the output bytes / the error of the
+    `validate_every = 0` model, PROVIDED every record handed to `write_record` is canonical
+    (`ToolRecord.Canon`: header sizes = sizes of the re-serialised meta and of the data, data checksum
+    valid, meta re-serialises to itself, `u64` fields in range) and the output stays below 2^64 bytes.
+    For `ve = 0` nothing is assumed.  Without the first hypothesis the statement is false, see
+    `validate_every_relevant_for_noncanonical_meta`. -/
+theorem validate_every_irrelevant_partial (ve : Nat) (input : List UInt8) (skip : Bool)
+    (fRec : Nat → ToolRecord → Except ToolErr ToolRecord)
+    (fHdr : Nat → BlobHeader → Except ToolErr BlobHeader)
+    (hcan : ve ≠ 0 → ∀ r ∈ writtenRecords input skip fRec fHdr, r.Canon)
+    (hsz : ve ≠ 0 → ∀ out, processBlobWith input skip fRec fHdr = .ok out → out.length < 2 ^ 64) :
+    processBlobWithV ve input skip fRec fHdr = liftW (processBlobWith input skip fRec fHdr) :=
+  processBlobWithV_eq ve input skip fRec fHdr hcan hsz
+
+/-- (1) as asked is FALSE for arbitrary input bytes: on `oddFile` (finding (4) above: a record that the
+    storage, the scan and `validate_blob` accept, whose meta region carries a trailing byte) recovery with
+    `validate_every = 0` succeeds, and with `validate_every = 1` fails in the read-back: the record
+    written is one byte shorter than its header says, so reading it back runs into the end of the file -/
+theorem validate_every_relevant_for_noncanonical_meta :
+    (∃ out, recoveryBlob oddFile true = .ok out ∧ recoveryBlobV 0 oddFile true = .ok out) ∧
+    recoveryBlobV 1 oddFile true = .error (.tool .other) ∧
+    recoveryBlobV 1 oddFile true ≠ liftW (recoveryBlob oddFile true) ∧
+    ¬ ∀ r ∈ writtenRecords oddFile true (fun _ r => .ok r) (fun _ h => .ok h), r.Canon := by
+  refine ⟨⟨_, rfl, by decide +kernel⟩, by decide +kernel, by decide +kernel, ?_⟩
+  intro h
+  have hw : writtenRecords oddFile true (fun _ r => .ok r) (fun _ h => .ok h) =
+      [{ header := oddHdr, mt := [], data := [1, 2, 3] }] := by decide +kernel
+  have := (h _ (by rw [hw]; exact List.mem_singleton.mpr rfl)).msize
+  revert this
+  decide
+
+/-- (1) on the inputs of the C16 statements: a produced blob, intact, with one record altered, or
+    truncated inside a record, and the version-0 image of a produced blob.  For every `validate_every`
+    the tools return exactly what the `validate_every = 0` model returns. -/
+theorem validate_every_irrelevant (klen : Nat) (recs : List (Rec × List UInt8)) (ve : Nat)
+    (hlen : (blobBytes klen recs).length < 2 ^ 64) (hts : ∀ x ∈ recs, x.1.ts < 2 ^ 64) :
+    (∀ skip, recoveryBlobV ve (blobBytes klen recs) skip = liftW (recoveryBlob (blobBytes klen recs) skip)) ∧
+    (∀ i input, FlipIn klen recs i input → ∀ skip,
+      recoveryBlobV ve input skip = liftW (recoveryBlob input skip)) ∧
+    (∀ i t, CutIn klen recs i t → ∀ skip,
+      recoveryBlobV ve ((blobBytes klen recs).take t) skip =
+        liftW (recoveryBlob ((blobBytes klen recs).take t) skip)) ∧
+    migrateBlobV ve (blobBytesV0 klen recs) = liftW (migrateBlob (blobBytesV0 klen recs)) ∧
+    migrateBlobV ve (blobBytes klen recs) = liftW (migrateBlob (blobBytes klen recs)) := by
+  refine ⟨fun skip => ?_, fun i input hflip skip => ?_, fun i t hc skip => ?_, ?_, ?_⟩
+  · rw [recoveryBlobV_intact klen recs ve skip hlen hts, recover_intact klen recs skip hlen hts]; rfl
+  · exact (flipIn_shape klen recs i input hlen hts hflip).recoveryV ve skip
+  · exact (cutIn_shape klen recs i t hlen hts hc).recoveryV ve skip
+  · rw [migrateBlobV_v0_image klen recs ve hlen hts, (migrate_preserves klen recs hlen hts).1]; rfl
+  · rw [migrateBlobV_v1_id klen recs ve hlen hts, (migrate_preserves klen recs hlen hts).2]; rfl
+
+theorem liftW_eq_ok {x : Except ToolErr (List UInt8)} {out : List UInt8} :
+    liftW x = .ok out ↔ x = .ok out := by
+  cases x <;> simp [liftW]
+
+/-- `recover_intact`, `recover_noskip`, `recover_skip`, `recover_truncated` for every batch size -/
+theorem recover_every (klen : Nat) (recs : List (Rec × List UInt8)) (ve : Nat)
+    (hlen : (blobBytes klen recs).length < 2 ^ 64) (hts : ∀ x ∈ recs, x.1.ts < 2 ^ 64) :
+    (∀ skip, recoveryBlobV ve (blobBytes klen recs) skip = .ok (blobBytes klen recs)) ∧
+    (∀ i input, FlipIn klen recs i input →
+      recoveryBlobV ve input false = .ok (blobBytes klen (recs.take i)) ∧
+      recoveryBlobV ve input true = .ok (blobBytes klen (recs.eraseIdx i))) ∧
+    (∀ i t skip, CutIn klen recs i t →
+      recoveryBlobV ve ((blobBytes klen recs).take t) skip = .ok (blobBytes klen (recs.take i))) :=
+  ⟨fun skip => recoveryBlobV_intact klen recs ve skip hlen hts,
+   fun i input hflip => recoveryBlobV_flip klen recs i input ve hlen hts hflip,
+   fun i t skip hc => recoveryBlobV_truncated klen recs i t ve skip hlen hts hc⟩
+
+/-- `recover_prefix` for every batch size -/
+theorem recover_prefix_every (klen : Nat) (recs : List (Rec × List UInt8)) (i : Nat) (input : List UInt8)
+    (ve : Nat) (hlen : (blobBytes klen recs).length < 2 ^ 64) (hts : ∀ x ∈ recs, x.1.ts < 2 ^ 64)
+    (hdam : FlipIn klen recs i input ∨ ∃ t, CutIn klen recs i t ∧ input = (blobBytes klen recs).take t)
+    (skip : Bool) :
+    (∃ out, recoveryBlobV ve input skip = .ok out) ∧
+    ∀ out, recoveryBlobV ve input skip = .ok out →
+      validateBlob out = .ok () ∧
+      ∃ S, out = blobBytes klen S ∧ recs.take i <+: S ∧ S.Sublist recs := by
+  have heq : recoveryBlobV ve input skip = liftW (recoveryBlob input skip) := by
+    rcases hdam with hflip | ⟨t, hc, rfl⟩
+    · exact ((validate_every_irrelevant klen recs ve hlen hts).2.1 i input hflip) skip
+    · exact ((validate_every_irrelevant klen recs ve hlen hts).2.2.1 i t hc) skip
+  obtain ⟨⟨out, hout⟩, hall⟩ := recover_prefix klen recs i input hlen hts hdam skip
+  rw [heq]
+  exact ⟨⟨out, liftW_eq_ok.mpr hout⟩, fun out' h => hall out' (liftW_eq_ok.mp h)⟩
+
+/-- the migration round trip for every batch size -/
+theorem migrate_preserves_every (klen : Nat) (recs : List (Rec × List UInt8)) (ve : Nat)
+    (hlen : (blobBytes klen recs).length < 2 ^ 64) (hts : ∀ x ∈ recs, x.1.ts < 2 ^ 64) :
+    migrateBlobV ve (blobBytesV0 klen recs) = .ok (blobBytes klen recs) ∧
+    migrateBlobV ve (blobBytes klen recs) = .ok (blobBytes klen recs) :=
+  ⟨migrateBlobV_v0_image klen recs ve hlen hts, migrateBlobV_v1_id klen recs ve hlen hts⟩
+
+/-- (2) the invariant.  `Writer.Inv w`: cursor = `written` = length of the output file, and if there is a
+    cache then the file is `base ++` the images of the cached records, the cache holds exactly those
+    records (each with the header it was written with, `blob_offset` = its position), `written_cached` is
+    the length of those images (so `written - written_cached` is the offset of the first cached record),
+    and they are canonical.  The invariant holds after `write_header`, is kept by `write_record` and
+    `clear_cache`, and in a state that satisfies it `validate_written_records` succeeds and changes
+    nothing. -/
+theorem readback_invariant :
+    (∀ (c : Bool) (o : List UInt8), o.length = 20 → (Writer.afterHeader c o).Inv) ∧
+    (∀ (w : Writer) (r : ToolRecord), w.Inv → (w.cache.isSome → r.Canon) → (w.writeRecord r).Inv) ∧
+    (∀ w : Writer, w.Inv → w.clearCache.Inv) ∧
+    (∀ w : Writer, w.Inv → (w.cache.isSome → w.file.length < 2 ^ 64) →
+      w.validateWrittenRecords = .ok w) :=
+  ⟨fun c _ ho => Writer.afterHeader_inv c ho, fun _ _ hi hc => hi.writeRecord hc,
+   fun _ hi => hi.clearCache, fun _ hi hl => hi.validate_ok hl⟩
+
+/-- (2) for whole runs: the read-back comparison never fails for records the writer itself wrote.  Under
+    the hypotheses of (1), a run with any `validate_every` does not end with "Written and cached records
+    is not equal", nor with the `expect` panic, and every error it does end with is the error the
+    `validate_every = 0` run ends with (i.e. it comes from reading / rewriting the blob header) -/
+theorem readback_never_fails_on_own_output (ve : Nat) (input : List UInt8) (skip : Bool)
+    (fRec : Nat → ToolRecord → Except ToolErr ToolRecord)
+    (fHdr : Nat → BlobHeader → Except ToolErr BlobHeader)
+    (hcan : ve ≠ 0 → ∀ r ∈ writtenRecords input skip fRec fHdr, r.Canon)
+    (hsz : ve ≠ 0 → ∀ out, processBlobWith input skip fRec fHdr = .ok out → out.length < 2 ^ 64) :
+    processBlobWithV ve input skip fRec fHdr ≠ .error .notEqual ∧
+    processBlobWithV ve input skip fRec fHdr ≠ .error .subPanic ∧
+    ∀ e, processBlobWithV ve input skip fRec fHdr = .error (.tool e) →
+      processBlobWith input skip fRec fHdr = .error e := by
+  rw [processBlobWithV_eq ve input skip fRec fHdr hcan hsz]
+  cases processBlobWith input skip fRec fHdr with
+  | error e0 =>
+    refine ⟨(by intro h; cases h), (by intro h; cases h), fun e h => ?_⟩
+    cases h; rfl
+  | ok out => exact ⟨(by intro h; cases h), (by intro h; cases h), fun e h => by cases h⟩
+
+/-- (2) on the C16 inputs: no hypothesis left -/
+theorem readback_never_fails_on_produced (klen : Nat) (recs : List (Rec × List UInt8)) (ve : Nat)
+    (hlen : (blobBytes klen recs).length < 2 ^ 64) (hts : ∀ x ∈ recs, x.1.ts < 2 ^ 64)
+    (input : List UInt8)
+    (hin : input = blobBytes klen recs ∨ (∃ i, FlipIn klen recs i input) ∨
+      ∃ i t, CutIn klen recs i t ∧ input = (blobBytes klen recs).take t) (skip : Bool) :
+    ∃ out, recoveryBlobV ve input skip = .ok out := by
+  rcases hin with rfl | ⟨i, hflip⟩ | ⟨i, t, hc, rfl⟩
+  · exact ⟨_, (recover_every klen recs ve hlen hts).1 skip⟩
+  · cases skip
+    · exact ⟨_, ((recover_every klen recs ve hlen hts).2.1 i input hflip).1⟩
+    · exact ⟨_, ((recover_every klen recs ve hlen hts).2.1 i input hflip).2⟩
+  · exact ⟨_, (recover_every klen recs ve hlen hts).2.2 i t skip hc⟩
+
+/-! ### (3) the two seeded variants -/
+
+/-- variant 1 (`written` advances only when `cache.is_some()`), exact condition: for every input and all
+    preprocessors it behaves as the real code iff `validate_every ≠ 0` or at most one record is written.
+    (NOT "invisible for `validate_every = 0`": without a cache `written` never moves, and every record is
+    addressed to offset 20.)  `hsz`: the first record ends below 2^64. -/
+theorem buggyOffset_invisible_iff (ve : Nat) (input : List UInt8) (skip : Bool)
+    (fRec : Nat → ToolRecord → Except ToolErr ToolRecord)
+    (fHdr : Nat → BlobHeader → Except ToolErr BlobHeader)
+    (hsz : ∀ r ∈ (writtenRecords input skip fRec fHdr).head?,
+      20 + (Writer.recordImage r 20).length < 2 ^ 64) :
+    processBlobWithW stepBuggyOffset ve input skip fRec fHdr = processBlobWithV ve input skip fRec fHdr ↔
+      (ve ≠ 0 ∨ (writtenRecords input skip fRec fHdr).length ≤ 1) :=
+  Pearl.buggyOffset_invisible_iff ve input skip fRec fHdr hsz
+
+/-- variant 1 on produced blobs: recovery reproduces the blob iff `validate_every ≠ 0` or the blob has at
+    most one record -/
+theorem buggyOffset_on_produced (klen : Nat) (recs : List (Rec × List UInt8)) (ve : Nat) (skip : Bool)
+    (hlen : (blobBytes klen recs).length < 2 ^ 64) (hts : ∀ x ∈ recs, x.1.ts < 2 ^ 64) :
+    processBlobWithW stepBuggyOffset ve (blobBytes klen recs) skip (fun _ r => .ok r) (fun _ h => .ok h) =
+        .ok (blobBytes klen recs) ↔ (ve ≠ 0 ∨ recs.length ≤ 1) := by
+  have hint := recover_intact klen recs skip hlen hts
+  have := Pearl.buggyOffset_invisible_iff ve (blobBytes klen recs) skip (fun _ r => .ok r)
+    (fun _ h => .ok h) (head_size_of_output hint hlen)
+  rw [written_length_produced klen recs skip hlen hts] at this
+  rw [← this]
+  rw [show processBlobWithV ve (blobBytes klen recs) skip (fun _ r => .ok r) (fun _ h => .ok h) =
+    recoveryBlobV ve (blobBytes klen recs) skip from rfl, recoveryBlobV_intact klen recs ve skip hlen hts]
+
+/-- variant 2 (`clear_cache` keeps `written_cached`), exact condition: under the hypotheses of (1) it
+    behaves as the real code iff `validate_every = 0` or at most `validate_every` records are written;
+    otherwise the run fails with "Written and cached records is not equal"
+    (`processBlobWithW_buggyClear`) -/
+theorem buggyClear_invisible_iff (ve : Nat) (input : List UInt8) (skip : Bool)
+    (fRec : Nat → ToolRecord → Except ToolErr ToolRecord)
+    (fHdr : Nat → BlobHeader → Except ToolErr BlobHeader)
+    (hcan : ∀ r ∈ writtenRecords input skip fRec fHdr, r.Canon)
+    (hsz : ∀ out, processBlobWith input skip fRec fHdr = .ok out → out.length < 2 ^ 64) :
+    processBlobWithW stepBuggyClear ve input skip fRec fHdr = processBlobWithV ve input skip fRec fHdr ↔
+      (ve = 0 ∨ (writtenRecords input skip fRec fHdr).length ≤ ve) :=
+  Pearl.buggyClear_invisible_iff ve input skip fRec fHdr hcan hsz
+
+/-- variant 2 on produced blobs: what recovery returns -/
+theorem buggyClear_on_produced (klen : Nat) (recs : List (Rec × List UInt8)) (ve : Nat) (skip : Bool)
+    (hlen : (blobBytes klen recs).length < 2 ^ 64) (hts : ∀ x ∈ recs, x.1.ts < 2 ^ 64) :
+    processBlobWithW stepBuggyClear ve (blobBytes klen recs) skip (fun _ r => .ok r) (fun _ h => .ok h) =
+      if ve = 0 ∨ recs.length ≤ ve then .ok (blobBytes klen recs) else .error .notEqual := by
+  have hint := recover_intact klen recs skip hlen hts
+  have hV := recoveryBlobV_intact klen recs ve skip hlen hts
+  by_cases hve : ve = 0
+  · subst hve
+    rw [buggyClear_invisible_zero, if_pos (Or.inl rfl)]
+    exact hV
+  · rw [processBlobWithW_buggyClear ve hve _ skip _ _ (written_canon_produced klen recs skip hlen hts)
+      (fun out hout => by
+        rw [show processBlobWith (blobBytes klen recs) skip (fun _ r => .ok r) (fun _ h => .ok h) =
+          recoveryBlob (blobBytes klen recs) skip from rfl, hint] at hout
+        cases hout; exact hlen),
+      written_length_produced klen recs skip hlen hts]
+    by_cases hle : recs.length ≤ ve
+    · rw [if_pos hle, if_pos (Or.inr hle)]; exact hV
+    · rw [if_neg hle, if_neg (by omega)]
+
+/-! ### non-vacuity of the writer theorems: a 5-record blob, `validate_every` = 0, 2, 5, 7 -/
+
+/-- `C05.recs4` and a record with meta and data -/
+def recs5 : List (Rec × List UInt8) :=
+  C05.recs4 ++ [({ key := 4, ts := 105, del := false, mt := some [7], data := ⟨3, 0⟩ }, [5, 6, 7])]
+
+abbrev b5 : List UInt8 := blobBytes 3 recs5
+
+theorem b5_hyps : b5.length = 416 ∧ b5.length < 2 ^ 64 ∧ (∀ x ∈ recs5, x.1.ts < 2 ^ 64) ∧ recs5.length = 5 := by
+  decide +kernel
+
+/-- by evaluation of the model (independent of the theorems): the real writer, every batch size -/
+theorem b5_real :
+    recoveryBlobV 0 b5 true = .ok b5 ∧ recoveryBlobV 2 b5 true = .ok b5 ∧
+    recoveryBlobV 5 b5 true = .ok b5 ∧ recoveryBlobV 7 b5 true = .ok b5 := by
+  refine ⟨by decide +kernel, by decide +kernel, by decide +kernel, by decide +kernel⟩
+
+/-- the same from the theorems, for all batch sizes at once -/
+example (ve : Nat) (skip : Bool) : recoveryBlobV ve b5 skip = .ok b5 :=
+  (recover_every 3 recs5 ve b5_hyps.2.1 b5_hyps.2.2.1).1 skip
+
+/-- the hypotheses of (1) / (2) hold for `b5` -/
+example : (∀ r ∈ writtenRecords b5 true (fun _ r => .ok r) (fun _ h => .ok h), r.Canon) ∧
+    (writtenRecords b5 true (fun _ r => .ok r) (fun _ h => .ok h)).length = 5 :=
+  ⟨written_canon_produced 3 recs5 true b5_hyps.2.1 b5_hyps.2.2.1,
+   by rw [written_length_produced 3 recs5 true b5_hyps.2.1 b5_hyps.2.2.1]; rfl⟩
+
+/-- damaged blobs (the examples `flip_data_example`, `flip_header_example` and the cut above), the
+    version-0 image: every batch size -/
+example (ve : Nat) : recoveryBlobV ve (b4.set 91 0xAA) true = .ok (blobBytes 3 (C05.recs4.eraseIdx 0)) ∧
+    recoveryBlobV ve (b4.set 91 0xAA) false = .ok (blobBytes 3 []) :=
+  ⟨((recover_every 3 C05.recs4 ve (by decide) (by decide)).2.1 0 _ flip_data_example).2,
+   ((recover_every 3 C05.recs4 ve (by decide) (by decide)).2.1 0 _ flip_data_example).1⟩
+
+example (ve : Nat) : recoveryBlobV ve (b4.set 148 0xAA) true = .ok (blobBytes 3 (C05.recs4.eraseIdx 1)) :=
+  ((recover_every 3 C05.recs4 ve (by decide) (by decide)).2.1 1 _ flip_header_example).2
+
+example (ve : Nat) (skip : Bool) : recoveryBlobV ve (b4.take 150) skip = .ok (blobBytes 3 (C05.recs4.take 1)) :=
+  (recover_every 3 C05.recs4 ve (by decide) (by decide)).2.2 1 150 skip (by decide)
+
+example (ve : Nat) : migrateBlobV ve (blobBytesV0 3 recs5) = .ok b5 :=
+  (migrate_preserves_every 3 recs5 ve b5_hyps.2.1 b5_hyps.2.2.1).1
+
+/-- variant 1 breaks (1): with `validate_every = 0` the output is not the blob (the records after the
+    first carry `blob_offset` 20), with `validate_every = 2` it is -/
+theorem buggyOffset_breaks_irrelevance :
+    processBlobWithW stepBuggyOffset 0 b5 true (fun _ r => .ok r) (fun _ h => .ok h) ≠ .ok b5 ∧
+    processBlobWithW stepBuggyOffset 2 b5 true (fun _ r => .ok r) (fun _ h => .ok h) = .ok b5 := by
+  refine ⟨by decide +kernel, by decide +kernel⟩
+
+/-- the same from the exact condition -/
+example (ve : Nat) :
+    processBlobWithW stepBuggyOffset ve b5 true (fun _ r => .ok r) (fun _ h => .ok h) = .ok b5 ↔ ve ≠ 0 := by
+  rw [buggyOffset_on_produced 3 recs5 ve true b5_hyps.2.1 b5_hyps.2.2.1, b5_hyps.2.2.2]
+  omega
+
+/-- variant 2 breaks (2): 5 records, `validate_every = 2`: the second read-back fails on the writer's own
+    output; `validate_every = 5` hides the bug (and so do 0 and 7, next example) -/
+theorem buggyClear_breaks_readback :
+    processBlobWithW stepBuggyClear 2 b5 true (fun _ r => .ok r) (fun _ h => .ok h) = .error .notEqual ∧
+    processBlobWithW stepBuggyClear 5 b5 true (fun _ r => .ok r) (fun _ h => .ok h) = .ok b5 := by
+  refine ⟨by decide +kernel, by decide +kernel⟩
+
+/-- the same from the exact condition -/
+example (ve : Nat) :
+    processBlobWithW stepBuggyClear ve b5 true (fun _ r => .ok r) (fun _ h => .ok h) =
+      if ve = 0 ∨ 5 ≤ ve then .ok b5 else .error .notEqual := by
+  rw [buggyClear_on_produced 3 recs5 ve true b5_hyps.2.1 b5_hyps.2.2.1, b5_hyps.2.2.2]
 
 end Pearl.C16
 
@@ -345,9 +632,22 @@ NOT YET PROVED (none of the requested statements is missing; possible strengthen
    but `skip_wrong_record_data` then trusts the altered `meta_size` / `data_size` (or the altered key length
    moves every later field), so where recovery continues is not determined by the original blob.
    Not stated, not needed for the property.
-2. The model covers `process_blob_with` with `validate_every = 0` (no `validate_written_records`). For
-   blobs produced by the writer the read-back check is implied by `recover_prefix` (`validateBlob out = ok`
-   reads the same records back); a model of the batching itself is not included.
+2. DONE (section "the writer's read-back validation"): `BlobWriter` with `cache` / `written` /
+   `written_cached`, `validate_written_records` every `validate_every` records and at the end
+   (Pearl/Model/ToolsWriter.lean).  `validate_every_irrelevant`, `recover_every`, `recover_prefix_every`,
+   `migrate_preserves_every`: every C16 recovery / migration result holds for every batch size;
+   `readback_invariant`, `readback_never_fails_on_own_output`; the two seeded variants with their exact
+   visibility conditions (`buggyOffset_invisible_iff`, `buggyClear_invisible_iff`, `*_on_produced`).
+   What remains open here:
+   * `validate_every_irrelevant` for ARBITRARY input bytes is false
+     (`validate_every_relevant_for_noncanonical_meta`); the general theorem
+     (`validate_every_irrelevant_partial`) assumes that the records handed to the writer are canonical.
+     Not proved: that every record `read_single_record` accepts is canonical EXCEPT for the length of its
+     re-serialised meta (plausible: the other fields of `ToolRecord.Canon` are checked by the reader), which
+     would reduce the hypothesis to "no record of the input has trailing bytes in its meta region".
+   * preprocessors other than identity / `migrate`: the hypothesis is on what they return.
+   * the `HashMap` comparison of `record != &written_record` is modelled on entry lists in stream order
+     (item 3).
 3. Metadata maps with more than one entry: the tools re-serialise a `HashMap`, whose iteration order is not
    determined; the model (and the storage model) only has maps with at most one entry.
 
